@@ -55,5 +55,17 @@ theorem encSlots_ok (env : Env) (rk : String → Nat) (hE : EnvWF env rk) (N : N
   | _ :: _, [], _, h => by simp [MembersOK] at h
   | _ :: _, _ :: _, [], h => by simp [MembersOK] at h
 
+/-- a well-formed schema in the sense of C03 (`EnvWF`: ranked by-value nesting) is acyclic in the
+    sense of C04 -/
+theorem envAcyclic_of_envWF {env : Env} {rk : String → Nat} (hE : EnvWF env rk) :
+    EnvAcyclic env rk := by
+  intro s ifs hfind
+  obtain ⟨hle, _, hf⟩ := hE s ifs hfind
+  refine ⟨hle, fun g hg s' ifs' href _ => ?_⟩
+  have hty : TyOK env rk (rk s) g.ty := (hf g hg).2.1
+  rcases href with h | ⟨n, h⟩
+  · rw [h] at hty; simp only [TyOK] at hty; exact hty.2
+  · rw [h] at hty; simp only [TyOK] at hty; exact hty.2.2.2
+
 end Evolve
 end Tars
